@@ -175,6 +175,17 @@ CHECKS = {
             "Partial: types holding references are rebuilt field-/item-wise (same referent in the same buffer, duplicated referent "
             "otherwise): executable model + oracle only.",
             "7/C09"),
+    "C17": ("Lean 4 proof of the decision logic (positional refused, arity assertion, lookup by name) and address arithmetic "
+            "(current storage + offset, first element of slices, offset + data offset) of the kernel call path; echo kernels "
+            "through the real ctx.add_kernels / cffi on serial and OpenMP contexts as tie and oracle",
+            "Kernel-checked theorems: C17_positional_refused, C17_arity_refused, C17_missing_refused, C17_accept_exact (an accepted call "
+            "has no positional and exactly the declared named arguments and delivers one value per declared argument in order), "
+            "C17_xobj_ptr (a compound object is delivered as its offset in the buffer's CURRENT storage after any history of "
+            "allocate/free/grow), C17_storage_changes_on_grow, C17_array_ptr, C17_scalar, C17_ret.",
+            "Partial by nature: cffi marshalling and its pointer element-type check, the C ABI and NumPy scalar conversion are "
+            "runtime; witnessed on every run by echo kernels (value / address / first element / write-back, before and after "
+            "buffer growth, all 10 scalar types, both CPU contexts).",
+            "7/C17"),
 }
 
 NOT_YET = {
